@@ -59,6 +59,13 @@ func (r *Run) finishOD(where string, pos token.Pos, res orderdom.Result, specTex
 // expression reads the ordering key; keyNames maps the canonical source text of the key of x
 // ("x.SeqNum()", "x.Id", ...) given x's text. Returns the running-result variable (nil if none).
 func (r *Run) keepBest(info *types.Info, loopBody *ast.BlockStmt, where string, usesKey func(ast.Expr) bool, keyTexts func(x string) []string, specText string) types.Object {
+	return r.keepBestDir(info, loopBody, where, +1, usesKey, keyTexts, specText)
+}
+
+// keepBestDir: dir = +1 keeps the candidate with the highest key, -1 the one with the lowest.
+// "No result yet" is `best == nil` or the negation of a boolean local that is set to true
+// together with the running result (found := false; ...; best, found = x, true).
+func (r *Run) keepBestDir(info *types.Info, loopBody *ast.BlockStmt, where string, dir int, usesKey func(ast.Expr) bool, keyTexts func(x string) []string, specText string) types.Object {
 	// the running result: an outer local assigned in the body, mentioned by a condition that reads the key
 	outer := func(o types.Object) bool {
 		v, ok := o.(*types.Var)
@@ -88,6 +95,9 @@ func (r *Run) keepBest(info *types.Info, loopBody *ast.BlockStmt, where string, 
 			o := prog.IdentObj(info, l)
 			if o == nil || !outer(o) {
 				continue
+			}
+			if b, ok := o.Type().Underlying().(*types.Basic); ok && b.Info()&types.IsBoolean != 0 {
+				continue // a "found" flag, not the running result
 			}
 			keyed := false
 			ast.Inspect(loopBody, func(m ast.Node) bool {
@@ -161,12 +171,29 @@ func (r *Run) keepBest(info *types.Info, loopBody *ast.BlockStmt, where string, 
 	for _, t := range keyTexts(bn) {
 		names[t] = "best"
 	}
+	// a "found" flag: an outer boolean local that is assigned the constant true in the loop body
+	ast.Inspect(loopBody, func(n ast.Node) bool {
+		as, ok := n.(*ast.AssignStmt)
+		if !ok || as.Tok != token.ASSIGN || len(as.Lhs) != len(as.Rhs) {
+			return true
+		}
+		for i, l := range as.Lhs {
+			o := prog.IdentObj(info, l)
+			if o == nil || o == best || !outer(o) {
+				continue
+			}
+			if tv, ok := info.Types[as.Rhs[i]]; ok && tv.Value != nil && tv.Value.String() == "true" {
+				names[o.Name()] = "?some"
+			}
+		}
+		return true
+	})
 	m := orderdom.New(info, names)
 	m.AssignEffect = func(o types.Object) bool { return o == best }
 	res := m.CheckBody(tail,
 		func(e odEnv) bool { return e.Rank["cand"] != e.Rank["best"] && e.Bool["?none"] != e.Bool["?some"] },
 		func(e odEnv) orderdom.Value {
-			if e.Bool["?none"] || e.Rank["cand"] > e.Rank["best"] {
+			if e.Bool["?none"] || (dir > 0 && e.Rank["cand"] > e.Rank["best"]) || (dir < 0 && e.Rank["cand"] < e.Rank["best"]) {
 				return orderdom.Sym("effect")
 			}
 			return orderdom.Sym("end")
